@@ -2,7 +2,7 @@
 
 Also hosts the helpers shared by the modules of cluster B (c04, c17, c15, c19): building databases from generated
 ATOM lines, JSON transport of values / tables / keyword arguments, canonical form of answers and exceptions."""
-import itertools, sqlite3, sys, warnings
+import contextlib, io, itertools, sqlite3, sys, warnings
 from fractions import Fraction
 import numpy as np
 from vlib import rat, unrat, exc_tag
@@ -176,7 +176,7 @@ def call(f):
     old = sys.getrecursionlimit()
     sys.setrecursionlimit(400)
     try:
-        with warnings.catch_warnings():
+        with warnings.catch_warnings(), contextlib.redirect_stdout(io.StringIO()):
             warnings.simplefilter('ignore')
             return f()
     except BaseException as e:
